@@ -3,7 +3,7 @@ from ..rules import failure, holds, flow, folds
 from .common import declare
 
 RULES = ['HOLD-BEFORE-FALLIBLE', 'PROPAGATE', 'EMIT-AFTER-REL', 'NO-SWALLOWING-GATHER', 'ACC-CONTRACT', 'RERAISE', 'STATE-AFTER-CALL', 'STATE-FROM-RESULT', 'NO-REL-ON-FAIL', 'SYNC-TRANSPORT', 'EMIT-CONVERT', 'FINALLY-NO-JUMP', 'AWAITABLE-RESULT', 'WINDOW-FIFO']
-FLOORS = {'RERAISE': 2, 'STATE-AFTER-CALL': 5, 'STATE-FROM-RESULT': 1, 'NO-REL-ON-FAIL': 1, 'SYNC-TRANSPORT': 3, 'EMIT-CONVERT': 3, 'FINALLY-NO-JUMP': 2, 'AWAITABLE-RESULT': 1, 'WINDOW-FIFO': 6, 'HOLD-BEFORE-FALLIBLE': 1}
+FLOORS = {'RERAISE': 2, 'STATE-AFTER-CALL': 5, 'STATE-FROM-RESULT': 1, 'NO-REL-ON-FAIL': 1, 'SYNC-TRANSPORT': 3, 'EMIT-CONVERT': 3, 'FINALLY-NO-JUMP': 2, 'AWAITABLE-RESULT': 1, 'WINDOW-FIFO': 6}     # (HOLD-BEFORE-FALLIBLE: no floor - the hazard need not exist: a user callable reached only through a module-level helper is not seen as one; its positive example is the seeded mutant c16-partition-retain-after-key, run by the thorough tier)
 
 META = {
     'level': "Static analysis of the synchronous delivery chain (_emit, emit, every plain update of core/sinks): no handler path "
